@@ -14,13 +14,16 @@ for s in sorted(m):
     what = what[:230].rsplit(" ", 1)[0] + " ..."
     rec = m[s]
     if rec["caught_by"]:
-        rows.append(f"| {s} | {what} | {rec['caught_by']} | " + ", ".join(f"`{o}`" for o in rec["obligations"][:2]) + " |")
+        rows.append(f"| {s} | {what} | {rec['caught_by']}{' (replayed natively)' if rec.get('replayed_natively') else ''} | "
+                    + ", ".join(f"`{o}`" for o in rec["obligations"][:2]) + " |")
     else:
         rows.append(f"| {s} | {what} | **missed** | tried: " + ", ".join(t["property"] for t in rec["tried"]) + " |")
         missed.append(s)
 n = len(m)
 rows.append("")
-rows.append(f"{n - len(missed)} of {n} seeded changes are reported by a registered check"
+nat = sum(1 for r in m.values() if r.get("replayed_natively"))
+rows.append(f"{n - len(missed)} of {n} seeded changes are reported by a registered check ({nat} with the counterexample replayed on "
+            f"the real code, the others with the refuted obligation and the solver's model: `no-failing-input-found`)"
             + (f"; not reported: {', '.join(missed)}." if missed else "."))
 table = "\n".join(rows)
 p = f"{ROOT}/DESIGN.md"
